@@ -15,7 +15,7 @@ def run(tier, seed):
     rep.add_case_results(run_cases(specs), "T1")
     progs = []
     for pn in ("uint8", "uint16", "uint24", "uint32", "uint48", "uint64"):
-        for kinds in (["ptr"], ["ptrs"], ["a_ptr_2"], ["ptr", "u8"], ["u8", "ptr", "u16"], ["ptrs", "i24"]):
+        for kinds in (["ptr"], ["ptrs"], ["a_ptr_2"], ["ptr", "u8"], ["u8", "ptr", "u16"], ["ptrs", "i24"], ["a_pnode_2"], ["u8", "pnode"], ["d_pnode"]):
             for e in "<>":
                 for a in (False, True):
                     progs.append(Program(kinds, e, a, pointer=pn))
@@ -25,7 +25,10 @@ def run(tier, seed):
     progs += [Program(k, "!", a, pointer=pn) for pn in ("uint16", "uint24", "uint48") for k in (["ptr"], ["a_ptr_2"], ["u8", "ptr", "u16"])
               for a in (False, True)]
     rep.add_case_results(run_cases([("t2.cases", "make_rel", (p.to_json(),)) for p in progs]), "T2")
-    run_pipeline(rep, progs, ["C01", "C02", "C04"])
+    run_pipeline(rep, progs, ["C01", "C02", "C04", "C16"])
+    # a byte order switched after loading is followed by compiled pointer decoding too (byte-based pointer widths included)
+    sw = [Program(k, e, False, pointer=pn) for pn in ("uint16", "uint24", "uint48") for k in (["ptr"], ["a_ptr_2"], ["u8", "ptr", "u16"]) for e in "<>"]
+    rep.add_case_results(run_cases([("t2.cases", "make_switch", (p.to_json(),)) for p in sw]), "T2")
     # bounded stand-in (covers what an undecided contract obligation would leave open): native dereference behaviour
     import io
 
